@@ -24,6 +24,7 @@ var c16ws = []struct{ name, text string }{
 var c16comments = []struct{ name, text string }{
 	{"block", " /* c */ "}, {"block-stars", " /* * / ** */ "}, {"line", " -- c\n"}, {"line-own-line", "\n-- c\n "}, {"line-crlf", " -- c\r\n"}, {"block-multiline", " /* a\n b */ "}, {"block-banner", " /*** banner ***/ "}, {"block-odd-stars", " /* x *****/ "}, {"block-empty", " /**/ "}, {"line-empty", " --\n"},
 	{"block-leading-slash", " /*/ x */ "}, {"block-slashes", " /*// a /* b / */ "}, {"block-only-slash", " /*/*/ "}, {"block-dashes", " /*-- x --*/ "}, {"line-block-opener", " -- /* c\n"}, {"line-dashes", " ---- c --\n"}, {"block-quote", " /* it's \"q\" */ "}, {"two-blocks", " /* a */ /* b */ "},
+	{"two-lines", "\n-- a\n-- b\n"}, {"line-then-block", " -- a\n/* b */ "}, {"block-then-line", " /* a */-- b\n"}, {"three-mixed", "\n--a\n/*b*/\n--c\n"}, {"blocks-touching", " /* a *//* b */ "}, {"line-crlf-line", " -- a\r\n-- b\r\n"},
 }
 
 // c16Gaps edits every whitespace gap of one generated statement.
@@ -92,7 +93,7 @@ func c16Known(kind, name, prev, next string, toks []gen.Tok, idx int) string {
 
 func checkC16(c *Ctx) (string, bool, []string) {
 	r := c.R
-	rule := "(A) 2-5 (one case in forty: 65-700, cycling through 12) generated statements joined by ';' with random whitespace, empty statements and optional trailing ';' must parse to exactly those statements (each equal to its stand-alone parse); joined by whitespace only must be rejected. (B)+(C) for one statement per (kind, clause subset) and random payload statements: EVERY whitespace gap x 6 whitespace substitutions x 18 comment insertions (block, starred block, banner and odd-star terminators, empty block, multi-line block, blocks whose text begins with a slash or holds comment openers, dashes or quotes, two adjacent blocks, line, empty line comment, line comments holding a block opener or more dashes, line on its own line, line+CRLF) is enumerated and the AST compared with the baseline. Non-trivial = edited text differs from baseline; distinct by edited text."
+	rule := "(A) 2-5 (one case in forty: 65-700, cycling through 12) generated statements joined by ';' with random whitespace, empty statements and optional trailing ';' must parse to exactly those statements (each equal to its stand-alone parse); joined by whitespace only must be rejected. (B)+(C) for one statement per (kind, clause subset) and random payload statements: EVERY whitespace gap x 6 whitespace substitutions x 24 comment insertions (six of them two or three comments in one gap, the second starting in column 0) (block, starred block, banner and odd-star terminators, empty block, multi-line block, blocks whose text begins with a slash or holds comment openers, dashes or quotes, two adjacent blocks, line, empty line comment, line comments holding a block opener or more dashes, line on its own line, line+CRLF) is enumerated and the AST compared with the baseline. Non-trivial = edited text differs from baseline; distinct by edited text."
 	assume := []string{"the baseline rendering puts one space into every gap where whitespace is legal", "a comment is inserted only inside existing whitespace, flanked by whitespace"}
 	if c.Replay != nil {
 		local := map[string]int64{}
